@@ -15,9 +15,12 @@ CHECKS = {
                 nontrivial_rule="a history counts if at least one open replayed a non-empty stored set; distinct by hash of the symbolic history.",
                 floors={"quick": {"c01_replay": 200, "c01_replay_nonempty": 20}}),
     "C02": dict(module=H, level="exploration",
-                rule="Same engine; every add is judged by the exactly-once fan-out oracle over subscription intervals of all live connections.",
+                rule="Same engine; every add is judged by the exactly-once fan-out oracle over subscription intervals of all live connections; "
+                     "histories include connections whose websocket closing handshake has begun but whose loss the server has not seen yet "
+                     "(sending to them raises, as in autobahn), and four real-process runs over TCP reproduce that window with SIGSTOP/SIGCONT.",
                 nontrivial_rule="a history counts if an add reached at least one subscribed connection; distinct by history hash.",
-                floors={"quick": {"c02_fanout": 200, "c02_fanout_subscribed": 100}}),
+                floors={"quick": {"c02_fanout": 200, "c02_fanout_subscribed": 100, "c02_fanout_next_to_closing_subscriber": 100,
+                                  "wire_closing_case": 4}}),
     "C03": dict(module=H, level="exploration",
                 rule="Same engine, 3 apps sharing 4 nameplate names; every claimed frame judged by the one-mailbox-per-incarnation oracle "
                      "(function + injectivity over the whole run, across restarts).",
@@ -133,7 +136,8 @@ CHECKS = {
                      "then random sequences with 35% malformed/out-of-order commands over hostile Unicode identifiers (NUL, combining marks, astral, quotes, SQL "
                      "fragments, empty, 10 kB); every frame and every step judged by the per-connection protocol oracle written from docs/server-protocol.md.",
                 nontrivial_rule="a history counts if it contains a command classified as definitely rejected; distinct by history hash.",
-                floors={"quick": {"rejected_cmd": 2000, "ack_first": 20000, "ping_pong": 500, "welcome": 1000, "error_has_orig": 2000}}),
+                floors={"quick": {"rejected_cmd": 2000, "ack_first": 20000, "ping_pong": 500, "welcome": 1000, "error_has_orig": 2000,
+                                  "wire_closing_case": 4}}),
     "C18": dict(module="mon.checks.c18", level="exploration",
                 rule="Differential across configurations: each random history is executed under the base configuration (listing allowed, no usage db, no "
                      "blur) and under sampled (thorough: all 15) other combinations of {listing} x {usage db} x {blur none/1/61/3600}; every frame except "
